@@ -29,7 +29,7 @@ BUDGET = {"quick": 300, "thorough": 3300}
 INF = dtl.INF
 
 TIE_MENU = [(0, 1, 1, 1, 1), (1, 1, 1, 1, 1), (0, 1, 1, 0, 0), (0, 1, 0, 1, 1), (0, 0, 1, 1, 1), (0, 1, INF, 1, 1), (0, 2, 2, 1, 1)]
-PLAIN_EXTRA = [(0, 1, 1, 0, 1), (0, 0, 0, 0, 1), (1, 2, 1, 0, 1)]
+PLAIN_EXTRA = [(0, 1, 1, 0, 1), (0, 0, 0, 0, 1), (1, 2, 1, 0, 1), (0, 10 ** 10, 10 ** 10 + 3, 1, 1)]
 PLAIN_MENU = [c for c in dict.fromkeys([c[:4] + (1,) for c in TIE_MENU] + PLAIN_EXTRA) if spaces.coherent_plain(c)]
 
 
